@@ -32,8 +32,9 @@ ASSUMED = [
     common_std.VERIF_ITER_ASSUMPTION,
 ]
 TRUSTED = [
-    "arity: the resolver builds std.not / std.neg nodes with one argument and std.eq / ne / and / or / coalesce with two (declarations in std.prql); "
-    "PL supplied as JSON can violate this and then args[0] / args[1] panic (precondition, not proved)",
+    "arity: the resolver builds std.not / std.neg nodes with one argument and std.eq / ne / and / or / coalesce with two: the declarations in std.prql have "
+    "that many parameters (table rows std_arity UA.fold.*) and only saturated calls are evaluated (resolve_guards FA3); PL supplied as JSON can violate this and "
+    "then args[0] / args[1] panic (precondition, not proved)",
     "integer literals produced by the lexer are > i64::MIN (9223372036854775808 lexes as a float), so -val does not overflow (precondition)",
 ]
 
